@@ -67,9 +67,17 @@ def case_pencil(ctx, variant):
     with ctx.concrete():
         mask = np.zeros(m.npoints, dtype=bool)
         mask[[0, 3]] = True
-    bounds = {"fix": fem.Boundary(field[0], mask=mask, skip=(0, 1, 0)[: m.dim])}
+    x0 = None
+    if variant == "x0":
+        # a separate top-level container (as for several bodies on sub-meshes): boundaries live on IT
+        x0 = field.copy()
+        bounds = {"fix": fem.Boundary(x0[0], mask=mask, skip=(0, 1, 0)[: m.dim])}
+    else:
+        bounds = {"fix": fem.Boundary(field[0], mask=mask, skip=(0, 1, 0)[: m.dim])}
     stub = EigStub(ctx)
-    fv = fem.FreeVibration(items, bounds).evaluate(solver=stub)
+    fv = fem.FreeVibration(items, bounds).evaluate(solver=stub, **({"x0": x0} if x0 is not None else {}))
+    if x0 is not None:
+        field = x0
     call = stub.calls[-1]
     dof0, dof1 = fem.dof.partition(field, bounds)
     Kt = np.zeros((n, n), dtype=object if ctx.sym else float)
@@ -82,6 +90,9 @@ def case_pencil(ctx, variant):
         Kt[: K.shape[0], : K.shape[1]] += K
         Mt[: Mi.shape[0], : Mi.shape[1]] += Mi
     tol = 1e-12
+    if call["A"].shape != (len(dof1), len(dof1)) or list(fv.dof1) != list(dof1):
+        ctx.check_concrete("free_unknowns_are_the_partition", False, "eigensolver got a %s matrix, partition has %d free unknowns" % (call["A"].shape, len(dof1)))
+        return
     ctx.equal("stiffness_given_to_eigensolver", call["A"], Kt[np.ix_(dof1, dof1)], tol=tol)
     ctx.equal("mass_given_to_eigensolver", call["M"], Mt[np.ix_(dof1, dof1)], tol=tol)
     ctx.check_concrete("free_unknowns_are_the_partition", list(fv.dof1) == list(dof1) and call["sigma"] == 0)
@@ -90,7 +101,7 @@ def case_pencil(ctx, variant):
         ctx.equal("extra_fields_carry_no_mass", Mt[nu:, :].reshape(-1), np.zeros((n - nu) * n, dtype=int), tol=tol)
     # extracted mode shape and frequency
     for k_ in range(2):
-        fld, freq = fv.extract(n=k_, inplace=False)
+        fld, freq = fv.extract(n=k_, inplace=False, **({"x0": x0} if x0 is not None else {}))
         vals = np.concatenate([np.asarray(f.values).reshape(-1) for f in fld.fields])
         exp = np.zeros(n, dtype=object if ctx.sym else float)
         exp[dof1] = np.asarray(call["V"])[:, k_]
@@ -149,7 +160,7 @@ def case_rigid_invariance(ctx):
 
 
 def cases(tier):
-    out = [("pencil", case_pencil, {"variant": v}) for v in ("single", "two_items", "mixed")]
+    out = [("pencil", case_pencil, {"variant": v}) for v in ("single", "two_items", "mixed", "x0")]
     out.append(("rigid_modes", case_rigid_modes, {"dim": 2}))
     out.append(("rigid_modes", case_rigid_modes, {"dim": 3}))
     if tier == "thorough":
